@@ -402,6 +402,61 @@ fn fw_holds(fw: &FwSpec, disc: &[usize], props: &[PropSpec]) -> bool {
     }
 }
 
+/// (e) seed replay on ACTOR systems: the order in which `ActorModel::actions` offers the deliverable envelopes comes from
+/// iterating the network's hash containers, so "same seed, same chooser => same first trace" also depends on the networks
+/// built by the `Network::new_*` constructors iterating in a reproducible order.  Two separately built models (same spec),
+/// same seed, UniformChooser, one thread: the fingerprint paths shown to the visitor must coincide.  In-process, judged here.
+fn actor_replay_part(out: &mut Out, thorough: bool, rng: &mut Rng) {
+    use srh::table_actor::*;
+    use stateright::{Checker, Model};
+    use std::sync::{Arc, Mutex};
+    let n = if thorough { 60 } else { 12 };
+    for i in 0..n {
+        let mut rr = rng.fork();
+        let p = GenParams { actors: (2, 4), density: 45, max_crashes: (0, 1), ..Default::default() };
+        let mut spec = gen_sys(&mut rr, &p);
+        spec.kind = [NetKind::NonDup, NetKind::Dup, NetKind::Ordered][i % 3];
+        spec.last = None;
+        // several envelopes in flight from the start, all different
+        let na = spec.tables.len();
+        spec.init_envs = (0..(4 + rr.below(5))).map(|k| (k % na, (k + 1 + rr.below(2)) % na, (k % 3) as u8)).collect();
+        spec.init_envs.sort();
+        spec.init_envs.dedup();
+        let seed = rr.next() % 1000;
+        let run = |spec: &SysSpec| -> Vec<String> {
+            let seen: Arc<Mutex<Vec<String>>> = Arc::new(Mutex::new(vec![]));
+            let s2 = seen.clone();
+            // a property that never gets a discovery keeps the traces going
+            let model = spec.model(spec.table_actors::<TMsg>(None)).property(stateright::Expectation::Always, "true", |_, _| true);
+            let _ = model
+                .checker()
+                .threads(1)
+                .target_state_count(300)
+                .target_max_depth(25)
+                .visitor(move |p: stateright::Path<_, _>| s2.lock().unwrap().push(p.encode()))
+                .spawn_simulation(seed, stateright::UniformChooser)
+                .join();
+            let v = seen.lock().unwrap().clone();
+            // the first trace: up to (excluding) the second path of length 1
+            let mut tr = vec![];
+            for (k, e) in v.iter().enumerate() {
+                if k > 0 && e.matches('/').count() == 0 { break; }
+                tr.push(e.clone());
+            }
+            tr
+        };
+        let (a, b) = (run(&spec), run(&spec));
+        out.stat(&format!("actor-replay-{}", spec.kind.name()));
+        if a.len() >= 3 { out.stat("actor-replay-trace-of-length>=3"); }
+        out.stat(&format!("actor-replay-trace-length-{}", a.len().min(6)));
+        out.distinct(&(spec.to_sx(&[]), seed));
+        if a != b {
+            let k = a.iter().zip(b.iter()).position(|(x, y)| x != y).unwrap_or(a.len().min(b.len()));
+            out.v("actor-seed-replay-differs", &format!("two models built from the same spec, seed {}: first traces differ at step {} ({:?} vs {:?}); system {}", seed, k, a.get(k), b.get(k), spec.to_sx(&[])));
+        }
+    }
+}
+
 fn main() {
     maybe_child();
     quiet_panics();
@@ -414,6 +469,7 @@ fn main() {
     }
     if arg_str("--only").map(|s| s != "matches").unwrap_or(true) {
         timing_part(&mut out, th, &mut rng);
+        actor_replay_part(&mut out, th, &mut rng);
     }
     out.finish();
 }
